@@ -5,6 +5,7 @@
 -/
 import Model.CoreLemmas
 import Model.AllocTotal
+import Model.PipeFacts
 namespace Props.C13
 open Model Model.Core
 
@@ -105,5 +106,18 @@ theorem sockclose_lists_nothing (s : State) (now : Nat) : ∀ r ∈ core s now [
   exact this.2 (List.mem_map.mpr ⟨q, this.1, rfl⟩)
 
 example : Inv init := init_inv
+
+/-- the two pipes of one connection are mirror images (what the accepted end calls local the connecting end calls
+    remote), the endpoint facts are demanded alike on both ends, a completed TLS state is demanded exactly on the TLS
+    transports (and the pre-handshake state an accepted tls+tcp connection used to report — D18 — is never admitted),
+    and every fact has one admissible value: the table the real transports are compared with leaves nothing open -/
+theorem pipe_facts_describe_the_connection (c : PipeFacts.Conn) (t f : String) :
+    ((PipeFacts.view c .listener).1 = (PipeFacts.view c .dialer).2 ∧ (PipeFacts.view c .listener).2 = (PipeFacts.view c .dialer).1) ∧
+    (PipeFacts.allowed t "tls-l" = PipeFacts.allowed t "tls-d" ∧ PipeFacts.allowed t "cred-l" = PipeFacts.allowed t "cred-d") ∧
+    (("complete" ∈ PipeFacts.allowed t "tls-l" ↔ PipeFacts.tlsTransport t = true) ∧ "?tls.ConnectionState" ∉ PipeFacts.allowed t "tls-l") ∧
+    (PipeFacts.allowed t f).length ≤ 1 := by
+  refine ⟨PipeFacts.views_mirror c, ⟨(PipeFacts.sides_agree t).1, (PipeFacts.sides_agree t).2.1⟩, ⟨(PipeFacts.tls_state_exact t).1, ?_⟩, PipeFacts.deterministic t f⟩
+  unfold PipeFacts.allowed
+  cases h : PipeFacts.tlsTransport t <;> simp
 
 end Props.C13
